@@ -66,9 +66,7 @@ def St.afterLoop (s : St) (pto now : Int) : St :=
 def St.onPacketReceived (s : St) (t : Int) : St :=
   { s with lastPacketReceivedTime := t, firstAESent := 0, keepAlivePingSent := false }
 
-/-- a packet the code counts as ack-eliciting was sent at `t` (registerPackedShortHeaderPacket counts STREAM
-    frames, sendPackedCoalescedPacket — PTO probes — counts control frames only: known finding
-    C17-stream-only-probe-idle-restart) -/
+/-- an ack-eliciting packet (control or STREAM frames; both send paths count both) was sent at `t` -/
 def St.onAckElicitingSent (s : St) (t : Int) : St :=
   if s.firstAESent = 0 then { s with firstAESent := t } else s
 
